@@ -29,8 +29,18 @@ def insertSorted (x : Nat × Nat) : List (Nat × Nat) → List (Nat × Nat)
 def showSt (d : DS) (s : St) : String :=
   let run := s.run.map fun r => s!"r{r.1}"
   let ctx := (s.run.filter fun r => match getRpc s r.1 with | some x => x.ctxCancelled | none => false).map fun r => s!"r{r.1}"
-  let cl := (s.rpcs.filterMap fun x => x.cli.map fun c => (x.id, c)).foldl (fun acc x => insertSorted x acc) []
-  let cli := cl.map fun (r, c) => s!"r{r}:{codeName c}"
+  -- what a raw peer sees: the connection going away is EOF (code 99 here), not a status
+  let rawView (x : Rpc) : Option Nat :=
+    match getConn s x.conn with
+    | some conn =>
+      if conn.raw then
+        (match x.cli with
+         | some c => if c = codeUnavailable then some 99 else some c
+         | none => if x.sent ∧ !conn.srvAlive then some 99 else none)
+      else x.cli
+    | none => x.cli
+  let cl := (s.rpcs.filterMap fun x => (rawView x).map fun c => (x.id, c)).foldl (fun acc x => insertSorted x acc) []
+  let cli := cl.map fun (r, c) => s!"r{r}:{if c = 99 then "EOF" else codeName c}"
   let stop := if !d.stopCalled then "none" else if s.returned then "returned" else "pending"
   s!"run={joinOr run} ctx={joinOr ctx} cli={joinOr cli} stop={stop}"
 
@@ -99,6 +109,10 @@ def step : Step DS := fun d fs impl =>
     let res : Option (St × DS) :=
       match fs with
       | ["dial", c] => (idNum c).map fun c => (apply s (.dial c), d)
+      | ["rawdial", c] => (idNum c).map fun c => (apply s (.rawdial c), d)
+      | ["rawstart", c, r] => match idNum c, idNum r with
+        | some c, some r => some (apply s (.rawstart c r), d)
+        | _, _ => none
       | ["start", c, r] => match idNum c, idNum r with
         | some c, some r => some (apply s (.start c r), d)
         | _, _ => none
